@@ -659,7 +659,7 @@ def _(eng, ci, a, dt):
     return a[0]
 
 
-@model('intrinsics::discriminant_value', 'mem::discriminant')
+@model('intrinsics::discriminant_value', 'mem::discriminant', 'discriminant')
 def _(eng, ci, a, dt):
     return eng.discriminant(deref(a[0]))
 
